@@ -21,6 +21,8 @@ func main() {
 		c25(os.Args[2:])
 	case "c26":
 		c26(os.Args[2:])
+	case "c27":
+		c27(os.Args[2:])
 	default:
 		fmt.Fprintln(os.Stderr, "unknown property", os.Args[1])
 		os.Exit(2)
